@@ -1435,6 +1435,13 @@ fn from_model(c: &Value, e0: i64) -> Value {
                          "parts": c["parts"].as_array().unwrap().iter().map(|p| json!({"i": p["i"], "skipped": p["skipped"]})).collect::<Vec<_>>()}),
         "DeclareFaults" | "DeclareRecovered" | "Terminate" => json!({"a": a, "m": "m1", "c": who, "decls": decls(false)}),
         "Extend" => json!({"a": "Extend", "m": "m1", "c": who, "decls": decls(true)}),
+        "PreCommit" => {
+            let ns = c["ns"].as_array().unwrap();
+            let ex = c["exps"].as_array().unwrap();
+            json!({"a": "PreCommit", "m": "m1", "c": who,
+                   "sectors": ns.iter().zip(ex.iter()).map(|(n, x)| json!({"n": n, "exp": x.as_i64().unwrap() + e0})).collect::<Vec<_>>()})
+        }
+        "ProveCommit" => json!({"a": "ProveCommit", "m": "m1", "c": who, "ns": c["ns"], "requireAll": c["requireAll"]}),
         other => panic!("unknown model call {other}"),
     }
 }
